@@ -8,6 +8,7 @@ import (
 	"time"
 
 	resourcetypes "github.com/projecteru2/core/resource/types"
+	pb "github.com/projecteru2/core/rpc/gen"
 	coretypes "github.com/projecteru2/core/types"
 
 	"verif/sim/simrt"
@@ -524,6 +525,37 @@ func (w *cluWorld) execOp(ctx context.Context, op cluOp, plan map[string]int, re
 	case "advance":
 		time.Sleep(time.Duration(op.Secs) * time.Second)
 		out.skipped = true
+	case "rpc_pods", "rpc_node", "rpc_status", "rpc_send":
+		// the same calls through the RPC layer (task counter, converters)
+		vib := w.vibranium()
+		var err error
+		switch op.Kind {
+		case "rpc_pods":
+			_, err = vib.ListPods(ctx, &pb.Empty{})
+		case "rpc_node":
+			_, err = vib.GetNode(ctx, &pb.GetNodeOptions{Nodename: w.nodeName(op.Node)})
+		case "rpc_status":
+			ids := w.candidates(op)
+			if len(ids) == 0 {
+				_, err = vib.ListPods(ctx, &pb.Empty{})
+				break
+			}
+			id := ids[op.Slot%len(ids)]
+			_, err = vib.GetWorkloadsStatus(ctx, &pb.WorkloadIDs{IDs: []string{id}})
+		case "rpc_send":
+			ids := w.candidates(op)
+			if len(ids) == 0 {
+				out.skipped = true
+				return
+			}
+			var sel []string
+			for _, s := range op.Slots {
+				sel = append(sel, ids[s%len(ids)])
+			}
+			st := &fakeSendStream{ctx: ctx}
+			err = vib.Send(&pb.SendOptions{IDs: sel, Data: map[string][]byte{"/etc/f": []byte("hello")}, Modes: map[string]*pb.FileMode{"/etc/f": {Mode: 0o644}}, Owners: map[string]*pb.FileOwner{"/etc/f": {}}}, st)
+		}
+		out.err, out.failed = err, err != nil
 	default:
 		out.skipped = true
 	}
